@@ -8,7 +8,7 @@ For the classes that have a model (Db, DbGrid, Table, Polygons, PolyElem, PolyLi
 a time-out, an allocation out of proportion with the file, or a returned object that cannot be printed / saved /
 reloaded identically is a violation with the file as replay.
 """
-import sys, os, re, base64, tempfile, shutil, subprocess, time
+import sys, os, re, base64, tempfile, shutil, subprocess, time, resource
 from concurrent.futures import ThreadPoolExecutor
 sys.path.insert(0, os.path.dirname(__file__))
 from common import *
@@ -94,14 +94,6 @@ def run_children(ctx, exe, tmpdir, cases, batch=48, workers=None):
     with ThreadPoolExecutor(max_workers=workers) as ex:
         list(ex.map(work, range(0, len(cases), batch)))
     return results
-
-def run_children_spread(ctx, exe, tmpdir, cases, rng):
-    """same, the cases being dealt to the children in random order so that the slow ones (time-outs) spread evenly"""
-    order = list(range(len(cases))); rng.shuffle(order)
-    res = run_children(ctx, exe, tmpdir, [cases[i] for i in order], batch=32)
-    out = [None] * len(cases)
-    for k, i in enumerate(order): out[i] = res[k]
-    return out
 
 def parse_impl(line):
     r = sx_parse(line)
@@ -318,14 +310,26 @@ def csv_cases(rng, quick):
     return out
 
 # ----------------------------------------------------------------------------- main
+PHASES = {}
+def timed(name, f, *a, **k):
+    t = time.time(); r = f(*a, **k); PHASES[name] = round(PHASES.get(name, 0) + time.time() - t, 1); return r
+
+def ncores():
+    try: return len(os.sched_getaffinity(0))
+    except (AttributeError, OSError): return NPROC
+
 def run(ctx):
     quick = ctx.quick()
-    build_lib(ctx, 'asan')
-    proofs_ok = coq_properties(ctx)
-    runner = build_runner(ctx)
-    exe = build_harness(ctx, 'C09', flavor='asan')
+    if not os.path.exists(os.path.join(BUILD, 'asan', 'Verif', 'libgstlearn.so')):
+        ctx.log('the AddressSanitizer build of the library is missing (bin/setup.sh builds it with bin/buildlib.sh asan): building it now, ~900 CPU-s')
+        ctx.notes.append('ASan library built inside the check (not prebuilt by setup)')
+    timed('build_asan_lib', build_lib, ctx, 'asan')      # no-op after bin/setup.sh (same script, same directory $VERIF_BUILD/asan)
+    proofs_ok = timed('coq_properties', coq_properties, ctx)
+    runner = timed('build_model_runner', build_runner, ctx)
+    exe = timed('build_harness', build_harness, ctx, 'C09', flavor='asan')
     if runner is None or exe is None:
         print('ERROR: model runner or harness does not build'); sys.exit(3)
+    ctx.log('phases so far (s): %s' % PHASES)
     rng = ctx.rng
     os.makedirs(os.path.join(BUILD, 'tmp'), exist_ok=True)
     tmpdir = tempfile.mkdtemp(prefix='C09_', dir=os.path.join(BUILD, 'tmp'))
@@ -333,6 +337,7 @@ def run(ctx):
         check(ctx, quick, rng, runner, exe, tmpdir, proofs_ok)
     finally:
         shutil.rmtree(tmpdir, ignore_errors=True)
+        ctx.cov['phase_wall_s'] = dict(PHASES)
 
 def coq_witnesses():
     out = []
@@ -394,31 +399,63 @@ def check(ctx, quick, rng, runner, exe, tmpdir, proofs_ok):
     for c, lab, d in cases: ctx.dist(CLS[c].split(':')[0] + '/' + lab.split(':')[0])
     ctx.log('%d distinct cases' % len(cases))
 
+    # ---- the loads, under a wall-clock budget: directed cases first (witnesses, count / locator / tag corruptions, valid files),
+    # then prefixes, byte-level corruptions and byte streams, chunk after chunk while the budget lasts
     t0 = time.time()
-    impl = run_children_spread(ctx, exe, tmpdir, [(c, d) for c, _, d in cases], rng)
+    budget = float(os.environ.get('C09_BUDGET_S', '75' if quick else '600'))
+    UNDIRECTED = ('prefix', 'byte-flip', 'byte-inserted', 'byte-stream', 'csv-prefix', 'csv-bytes', 'header-byte', 'line-deleted', 'line-duplicated', 'lines-swapped')
+    tier0 = [i for i, c in enumerate(cases) if c[1].split(':')[0] not in UNDIRECTED]
+    tier1 = [i for i, c in enumerate(cases) if c[1].split(':')[0] in UNDIRECTED]
+    rng.shuffle(tier0); rng.shuffle(tier1)
+    order = tier0 + tier1
+    workers = max(1, min(ncores(), 16))
+    chunk = 32 * workers * 2
+    impl = [None] * len(cases)
+    done = 0
+    r0 = resource.getrusage(resource.RUSAGE_CHILDREN)
+    while done < len(order):
+        # the directed tier is always run; the rest only while the budget lasts
+        if done >= len(tier0) and time.time() - t0 > budget: break
+        idx = order[done:done + chunk]
+        res = run_children(ctx, exe, tmpdir, [(cases[i][0], cases[i][2]) for i in idx], batch=32, workers=workers)
+        for i, o in zip(idx, res): impl[i] = o
+        done += len(idx)
+    skipped = len(order) - done
     # a time-out must be reproducible: each one is run a second time, alone; a case that then answers is only 'slow'
     tmo = [i for i, o in enumerate(impl) if o and o['kind'] == 'timeout']
     if tmo:
-        again = run_children(ctx, exe, tmpdir, [(cases[i][0], cases[i][2]) for i in tmo], batch=1)
+        again = run_children(ctx, exe, tmpdir, [(cases[i][0], cases[i][2]) for i in tmo], batch=1, workers=workers)
         nslow = 0
         for i, o in zip(tmo, again):
             if o and o['kind'] != 'timeout': impl[i] = o; nslow += 1
         ctx.cov['timeouts_not_reproduced'] = nslow
+    r1 = resource.getrusage(resource.RUSAGE_CHILDREN)
+    PHASES['loads_under_asan'] = round(time.time() - t0, 1)
+    ctx.cov['loads'] = {'cases_generated': len(cases), 'directed': len(tier0), 'run': done, 'skipped_by_wall_clock_budget': skipped, 'budget_s': budget,
+                        'workers': workers, 'children_cpu_s': round(r1.ru_utime + r1.ru_stime - r0.ru_utime - r0.ru_stime, 1)}
+    if skipped:
+        ctx.log('wall-clock budget of %.0f s reached: %d undirected cases (prefixes, byte corruptions) not run' % (budget, skipped))
+        ctx.notes.append('wall-clock budget of %.0f s for the loads reached after %d of %d cases: %d undirected cases (prefixes, byte-level corruptions) were not run' % (budget, done, len(cases), skipped))
+    # the cases that were not run leave the evaluation
+    keep = [i for i in range(len(cases)) if impl[i] is not None]
+    cases = [cases[i] for i in keep]; impl = [impl[i] for i in keep]
     kinds = {}
     for o in impl:
         if o: kinds[o['kind']] = kinds.get(o['kind'], 0) + 1
     ctx.cov['impl_outcome_kinds'] = kinds
-    ctx.log('implementation: %d loads in child processes under ASan, %.1fs, %s' % (len(cases), time.time() - t0, kinds))
+    ctx.log('implementation: %d loads in child processes under ASan, %.1fs wall, %s CPU-s of children, %d workers, %s' % (len(cases), time.time() - t0, ctx.cov['loads']['children_cpu_s'], workers, kinds))
     t0 = time.time()
     mi = [i for i, c in enumerate(cases) if c[0] in MODELLED]
     cf = write_cases(ctx, 'model', [[cases[i][0], CAP, BIGFUEL, list(cases[i][2])] for i in mi])
-    rc_m, mres = run_model(ctx, runner, cf, timeout=900)
+    rc_m, mres = run_model(ctx, runner, cf, timeout=600, jobs=workers)
     try: os.remove(cf)
     except OSError: pass
     if len(mres) != len(mi):
         print('ERROR: model runner returned %d results for %d cases' % (len(mres), len(mi))); sys.exit(3)
     model = dict(zip(mi, mres))
     ctx.log('model: %d files of modelled classes, %.1fs' % (len(mi), time.time() - t0))
+    PHASES['model'] = round(time.time() - t0, 1)
+    t0 = time.time()
 
     viol = {}    # key -> (len(data), text, replay, found_input)
     def report(key, text, replay, size, found_input=True):
@@ -503,7 +540,9 @@ def check(ctx, quick, rng, runner, exe, tmpdir, proofs_ok):
     ctx.cov['rule'] = ('case = (loader, file content); files = every byte prefix of valid files written by the library (sampled around line ends for long files), token / line / '
                        'byte corruptions of them, byte streams, CSV and grid-exchange files; one load per case in a child process under AddressSanitizer (5 s CPU, 256 MB per request); '
                        'distinct = distinct (loader, content); non-trivial = content longer than the class tag')
+    PHASES['compare'] = round(time.time() - t0, 1)
     ctx.log('outcomes: %s' % stats)
+    ctx.log('phases (s): %s' % PHASES)
     if not proofs_ok: proof_break_violation(ctx, found_input)
     ctx.assumptions = ['files shorter than 2^31 bytes', 'device errors (badbit) do not occur while reading',
                        'memory safety of code downstream of the readers (std::string, Eigen, destructors) is runtime evidence only (ASan on the explored files)',
